@@ -42,7 +42,7 @@ prop(
 prop(
     "C18",
     ["DivanModel.Props.C18"],
-    [lab("fmt", 20000, 2000000)],
+    [lab("fmt", 20000, 2000000), lab("paint", 800, 20000)],
     level_text="Theorems for every picosecond value (unbounded Nat, so all of u128): the unit is the largest not exceeding the value (ns below 1 ns), and the printed number equals floor(value*10^k/unit)/10^k with k = max(0, 4-d), trailing zeros removed (fmt_eq_spec: the code's integer pre-scaling by 10^4 followed by format_f64's string surgery equals the truthful truncation). format_f64 is modelled as a function on the decimal text Rust produced and proved to be pure truncation (formatDecimal_is_truncation) with no trailing zero left. Sizes/throughputs: scale selection and truncation are modelled; the two f64 operations are checked per case against exact rationals (relative 2^-48).",
     level_note="Trusted: Lean kernel; Rust's f64 Display (shortest round-trip decimal) supplies the decimal text the model works on; bridging assumption '(N as f64 / 1e4).to_string() is the exact decimal of N/10^4 for N < 10^8' is validated by the lab (every fd case exercises it), not proved; IEEE arithmetic of sizes/throughputs is validated per case, not proved.",
     assumptions=["f64 Display/FromStr and IEEE division are Rust's; Lean's Float is opaque to proof"],
